@@ -98,6 +98,15 @@ CLAIMED.update({
          "renderings, field counts, -1 for NULLs and 0 for empties.",
          CONN_NOTE + " Value fidelity rests on the harness's independent decoders (the honest limit stated in DESIGN 4 C09).",
          CONN_TECH, "4 C09"),
+ "C02": ("(a) TLC enumerates every bounded operation sequence of the frame writer (PgWriter) with a failing underlying "
+         "writer and abandoned frames, checks the sink only ever holds complete, correctly sized messages; every sequence "
+         "is replayed on the real buffer.Writer and validated by TLC. (b) the real server's output under the drivers of "
+         "eleven property families is decoded into structural facts and TLC checks every message against the backend "
+         "grammar (PgOps.GrammarOK) and that no partial frame is left.",
+         "Trusted: TLC, the byte scanner producing structural facts (the grammar decision is made in TLA+), the harness. "
+         "Handler-supplied strings contain no NUL.",
+         "TLA+ specs (PgWriter, PgOps.GrammarOK) + TLC model checking + replay on the real writer + TLC validation of "
+         "the decoded output of the real server under all drivers", "4 C02"),
 })
 NOT_YET = "machinery for this property is not built yet in this revision (planned, see DESIGN.md section 4)"
 
